@@ -727,15 +727,33 @@ func (p *PReg) EachElem(f func(*PElem)) {
 	}
 }
 
-// Refs returns element-level slab references and external-group references in p.
+// Refs returns element-level slab references and external-group references in p
+// (every reference exactly once, however deeply the inlined containers are nested).
 func (p *PReg) Refs() (elemRefs, groupRefs []RegID) {
-	p.EachElem(func(e *PElem) {
-		if e.Kind == "ref" {
-			elemRefs = append(elemRefs, e.Ref)
+	var walkEls func(pe *PElements)
+	var walkEl func(e *PElem)
+	walkEl = func(e *PElem) {
+		if e == nil {
+			return
 		}
-	})
-	var collect func(pe *PElements)
-	collect = func(pe *PElements) {
+		switch e.Kind {
+		case "ref":
+			elemRefs = append(elemRefs, e.Ref)
+		case "some":
+			walkEl(e.Inner)
+		case "inl.arr":
+			for i := range e.Elems {
+				walkEl(&e.Elems[i])
+			}
+		case "inl.map":
+			walkEls(e.MapElems)
+		case "inl.cmap":
+			for i := range e.Compact {
+				walkEl(&e.Compact[i])
+			}
+		}
+	}
+	walkEls = func(pe *PElements) {
 		if pe == nil {
 			return
 		}
@@ -745,25 +763,19 @@ func (p *PReg) Refs() (elemRefs, groupRefs []RegID) {
 			case "xgroup":
 				groupRefs = append(groupRefs, ent.GroupRef)
 			case "group":
-				collect(ent.Group)
+				walkEls(ent.Group)
 			case "single":
-				for _, x := range []*PElem{ent.Key, ent.Val} {
-					walkElem(x, func(e *PElem) {
-						if e.Kind == "inl.map" {
-							collect(e.MapElems)
-						}
-					})
-				}
+				walkEl(ent.Key)
+				walkEl(ent.Val)
 			}
 		}
 	}
-	collect(p.MapElems)
 	for i := range p.Elems {
-		walkElem(&p.Elems[i], func(e *PElem) {
-			if e.Kind == "inl.map" {
-				collect(e.MapElems)
-			}
-		})
+		walkEl(&p.Elems[i])
+	}
+	walkEls(p.MapElems)
+	if p.Storable != nil {
+		walkEl(p.Storable)
 	}
 	return
 }
